@@ -203,6 +203,9 @@ type Layout struct {
 	Comments bool
 	// OldModifiers prints "call local volatile X(...)" instead of using(...).
 	OldModifiers bool
+	// ShuffleCalls writes the calls of a pipeline in a drawn order (often
+	// reversed) instead of dependency order.
+	ShuffleCalls bool
 	// Dangling adds comments that are not followed by an element of their
 	// scope (before a closing bracket).
 	Dangling bool
@@ -348,6 +351,27 @@ func (prog *Program) SourceFiles(lay *Layout) map[string]string {
 	return files
 }
 
+// StageText / PipelinesAndCallText render parts of the program (for tests
+// that lay the declarations out over files of their own choosing).
+func (prog *Program) StageText(s *Stage, lay *Layout) string {
+	p := &printer{lay: lay, u: prog.U}
+	p.printStage(s)
+	return p.b.String()
+}
+
+func (prog *Program) PipelinesAndCallText(lay *Layout) string {
+	p := &printer{lay: lay, u: prog.U}
+	for _, pl := range prog.Pipelines {
+		p.b.WriteString("\n")
+		p.printPipeline(prog, pl)
+	}
+	if prog.Top != nil {
+		p.b.WriteString("\n")
+		p.printCall(prog, nil, prog.Top, "")
+	}
+	return p.b.String()
+}
+
 func (p *printer) printStage(s *Stage) {
 	if s.Comment != "" {
 		fmt.Fprintf(&p.b, "# %s\n", s.Comment)
@@ -410,7 +434,23 @@ func (p *printer) printPipeline(prog *Program, pl *Pipeline) {
 	writeParams(p, "in ", pl.Ins, "    ")
 	writeParams(p, "out", pl.Outs, "    ")
 	p.b.WriteString(")\n{\n")
-	for _, c := range pl.Calls {
+	calls := pl.Calls
+	if p.lay != nil && p.lay.ShuffleCalls && len(calls) > 1 {
+		// calls may be written in any order (the compiler sorts them by
+		// dependency): consumers before their producers, chains back to front
+		calls = append([]*Call{}, calls...)
+		if p.pick(3) == 0 {
+			for i, j := 0, len(calls)-1; i < j; i, j = i+1, j-1 {
+				calls[i], calls[j] = calls[j], calls[i]
+			}
+		} else {
+			for i := len(calls) - 1; i > 0; i-- {
+				j := p.pick(i + 1)
+				calls[i], calls[j] = calls[j], calls[i]
+			}
+		}
+	}
+	for _, c := range calls {
 		p.printCall(prog, pl, c, "    ")
 		p.b.WriteString("\n")
 	}
